@@ -15,7 +15,14 @@ from families.loadcommon import *
 PROPERTY = "C01"
 FAMILY = "load"
 LEAN_MODULE = "ElfioVerif.Props.C01"
-THEOREMS = ["ElfioVerif.C01.load_total", "ElfioVerif.C01.load_alloc_bound"]
+THEOREMS = ["ElfioVerif.C01.load_total", "ElfioVerif.C01.load_total_anyStream", "ElfioVerif.C01.load_inv",
+            "ElfioVerif.C01.secLoad_inv", "ElfioVerif.C01.segLoad_inv",
+            "ElfioVerif.C01.load_alloc_bound", "ElfioVerif.C01.load_alloc_shape",
+            "ElfioVerif.C01.getData_inv", "ElfioVerif.C01.getData_alloc_bound",
+            "ElfioVerif.C01.getString_total", "ElfioVerif.C01.exposes_only_file_bytes",
+            "ElfioVerif.C01.seg_exposes_only_file_bytes",
+            "ElfioVerif.C01.LoadedSec.size_lt", "ElfioVerif.C01.LoadedSec.resident_facts",
+            "ElfioVerif.C01.LoadedSec.rdRange_ok"]
 SITES = ["conv", "is_sect_in_seg", "load_s", "sec32_load", "sec64_load", "seg32_load", "seg64_load", "validate", "find_prog"]
 RULE = ("byte strings: random bytes behind each of the four valid idents; structure-aware mutations "
         "(tools/elfspec.mutate: boundary values 0,1,len-1,len,len+1,2^31,2^32-1,2^63,2^64-1 in header/table "
